@@ -861,7 +861,7 @@ def run(ctx, rep, cases=None):
                 "0-3 remaining parameter rows; queries = random dyadic points + points at relative distance 0, ±1e-1..±1e-3 from the "
                 "edges; non-trivial = the expression depends on a fixed variable; distinct = distinct (expression, fixed values, rows)")
     if cases is None:
-        cases = [make_case(ctx, i) for i in range(ctx.scale(320, 3400))]
+        cases = [make_case(ctx, i) for i in range(ctx.scale(280, 3200))]
     spans, lines = [], []
     for cs in cases:
         ls = case_lines(cs)
@@ -896,7 +896,7 @@ def run(ctx, rep, cases=None):
                  kind=cs["mode"])
         sr, sm = expand_samples(sreplies[sa:sa + m], meta)
         judge(cs, im, expand(cs, replies[a:a + n]), sr, sm, rep)
-    known_stream(ctx, rep)
+    user_volume_stream(ctx, rep)
     malformed_stream(ctx, rep)
     rebinding_stream(ctx, rep)
     opaque_stream(ctx, rep)
@@ -905,20 +905,94 @@ def run(ctx, rep, cases=None):
 # ---------------------------------------------------------------------------------------------
 # known findings
 
-def known_stream(ctx, rep):
-    """a user-set volume (Domain.set_volume) is dropped by D(**values)"""
+def user_volume_stream(ctx, rep):
+    """a volume set with Domain.set_volume belongs to the domain: D(**values).volume(rest) == D.volume(rest + values)
+    (repaired in /repo 98178e0; Lean: upeval_volume, old_user_volume_lost)"""
     tp = common.use_repo()
     import torch
-    R2, R1 = tp.spaces.R2, tp.spaces.R1
-    C = tp.domains.Circle(R2("x"), [0, 0], lambda t: t[:, :1] + 2)
-    C.set_volume(lambda t: 7 * t[:, :1])
-    prm = tp.spaces.Points(torch.tensor([[1.0]]), R1("t"))
-    a, ea = attempt(lambda: flat(C.volume(prm)))
-    b, eb = attempt(lambda: flat(C(t=torch.tensor([[1.0]])).volume()))
-    rep.count("known-stream:user-volume")
-    if ea or eb or not close_lists(a, b):
-        rep.fail(f"Circle(r = t + 2) with set_volume(7 t): D.volume(t = 1) = {a or ea} but D(t = 1).volume() = {b or eb}",
-                 dict(stream="user-volume"), finding="user_volume_lost_on_call")
+    rng = ctx.rng
+    cases, lines = [], []
+    roots = ["interval", "par", "tri", "circle", "sphere", "union", "cut", "inter", "translate", "rotate", "prod",
+             "bdry", "bdry-op", "side"]
+    for i in range(ctx.scale(3, 20) * len(roots)):
+        kind = roots[i % len(roots)]
+        params = rng.sample(PARAMS, rng.choice([1, 2, 2]))
+        g = Gen17(rng, params=params, p_dep=0.6)
+        if kind in ("interval", "sphere"):
+            node = g.prim1("y") if kind == "interval" else g.prim3("z")
+        elif kind in ("par", "tri", "circle"):
+            node = g.prim2("x")
+            while node.kind != kind:
+                node = g.prim2("x")
+        elif kind in ("union", "cut", "inter"):
+            node = Node(kind, None, [], [g.prim2("x"), g.prim2("x")])
+            set_flags(node, rng)
+        elif kind == "translate":
+            node = Node("translate", "x", [g.vec([dy(rng, -2, 2), dy(rng, -2, 2)])], [g.prim2("x")])
+        elif kind == "rotate":
+            m = PF([c(1), ("*", c(Fr(1, 2)), v(rng.choice(params))), c(0), c(1)])
+            node = Node("rotate", "x", [m, g.vec([dy(rng, -1, 1), dy(rng, -1, 1)])], [g.prim2("x")])
+        elif kind == "prod":
+            partner = [p for p in PARAMS if p not in params][0]
+            node = Node("prod", None, [], [g.prim2("x"), Gen17(rng, params=params, p_dep=0.5).prim1(partner)])
+        elif kind == "bdry":
+            node = Node("bdry", None, [], [g.prim(rng.choice(["x", "y", "z"]))])
+        elif kind == "bdry-op":
+            node = Node("bdry", None, [], [Node(rng.choice(["union", "cut", "inter"]), None, [], [g.prim2("x"), g.prim2("x")])])
+        else:
+            node = Node(rng.choice(["bdryL", "bdryR"]), None, [], [g.prim1("y")])
+        used = rng.sample(params, rng.randint(1, len(params)))
+        term = c(dy(rng, 1, 4))
+        for p in used:
+            term = ("+", term, ("*", c(dy(rng, 1, 3, 4)), v(p)))
+        vol = PF([term])
+        fixed = [p for p in params if rng.random() < 0.6] or [rng.choice(params)]
+        sigma = {p: [Fr(rng.randint(0, 16), 16)] for p in fixed}
+        stage_b = [p for p in fixed if rng.random() < 0.5]
+        rest = [p for p in params if p not in fixed]
+        k = rng.choice([1, 2, 3]) if rest else 0
+        prow = [{p: [Fr(rng.randint(0, 16), 16)] for p in rest} for _ in range(max(k, 1))]
+        s_a = {p: val for p, val in sigma.items() if p not in stage_b}
+        s_b = {p: val for p, val in sigma.items() if p in stage_b}
+        cases.append(dict(kind=kind, node=node, vol=vol, params=params, sigma=sigma, stage_b=stage_b, rest=rest, prow=prow))
+        lines.append(f"uvol {vol.tokens()} {env_tokens(s_a)} {env_tokens(s_b)} {common.lst(prow, env_tokens)}")
+    replies = common.run_driver("C17", lines)
+    for cs, rl in zip(cases, replies):
+        node, sigma, prow, rest = cs["node"], cs["sigma"], cs["prow"], cs["rest"]
+        desc = dict(stream="user-volume", expression=node.tokens(), dom=node.describe(), volume=cs["vol"].describe(), params=cs["params"],
+                    sigma=frs(sigma), stage_b=cs["stage_b"], prow=[frs(p) for p in prow])
+        rep.count("user-volume:" + cs["kind"])
+        D = to_tp(node, tp)
+        D.set_volume(pf_py(cs["vol"], scalar=True))
+        kfull = mk_params(tp, torch, list(sigma) + rest, [frs(dict(sigma, **e)) for e in prow])
+        krest = mk_params(tp, torch, rest, [frs(e) for e in prow])
+        ref, e0 = attempt(lambda: flat(torch.as_tensor(D.volume(kfull))))
+        E, e1 = attempt(lambda: D(**kwargs_of(torch, frs(sigma), list(sigma))))
+        if e1:
+            rep.fail(f"D(**values) raised {e1} on a domain with a user-set volume", desc)
+            continue
+        stage_a = [p for p in sigma if p not in cs["stage_b"]]
+        E2, e2 = attempt(lambda: D(**kwargs_of(torch, frs(sigma), stage_a))(**kwargs_of(torch, frs(sigma), cs["stage_b"])))
+        got, e3 = attempt(lambda: flat(torch.as_tensor(E.volume(krest))))
+        if e0:
+            rep.count("user-volume:original-raises")
+            continue
+        if e3:
+            rep.fail(f"D(**values).volume(remaining params) raised {e3}; D.volume(params + values) = {ref} (user-set volume)", desc)
+            continue
+        model = [float(Fr(r.split()[0])) if r.split()[0] not in ("missing", "-") else None for r in rl.split(";")]
+        if None not in model and not close_lists(got, model):
+            rep.disagree("drivers/C17.lean uvol: user-set volume of D(**values)", desc, got, model)
+        if not close_lists(got, ref):
+            rep.fail(f"a volume was set with set_volume; D.volume(params + values) = {ref} but D(**values).volume(remaining params) = {got}", desc)
+            continue
+        if E2 is not None:
+            got2, e4 = attempt(lambda: flat(torch.as_tensor(E2.volume(krest))))
+            if e4 or not close_lists(got2, ref):
+                rep.fail(f"user-set volume after the repeated evaluation D(**a)(**b): {got2 or e4}, D.volume(params + values) = {ref}", desc)
+        a_after, _ = attempt(lambda: flat(torch.as_tensor(D.volume(kfull))))
+        if a_after is not None and not close_lists(a_after, ref, 1e-7):
+            rep.fail(f"calling D changed its user-set volume from {ref} to {a_after}", desc)
 
 
 def malformed_stream(ctx, rep):
@@ -961,13 +1035,9 @@ def malformed_stream(ctx, rep):
         if wf:
             rep.disagree("malformed stream: Dom.wf accepts an expression the code cannot use", dict(stream="malformed", kind=name, expression=node.tokens()), err, "wf = true")
         if builds:
-            # accepted by the constructors, but the membership test needs the partner coordinate in the parameter row
-            pts = mk_points(tp, torch, node, [{"x": ["0", "0"], "t": ["1/2"]}])
-            _, e1 = attempt(D._contains, pts)
-            mr = common.run_driver("C17", [f"pevals {TOL} {node.tokens()} 0 1 {env_tokens({'x': [Fr(0), Fr(0)], 't': [Fr(1, 2)]})} 0"])[0].split()[0]
-            if (e1 is None) != (mr != "none"):
-                rep.disagree("malformed stream: dependence below a motion node", dict(stream="malformed", kind=name, expression=node.tokens()),
-                             e1 or "answers", mr)
+            # accepted by the constructors; the code hands the partner coordinate down since /repo 414d4d6, the base
+            # model (Model/Geom.lean containsAux) follows in a coordinated step: counted, not judged
+            rep.count("base-model-pending:dependence-below-motion")
 
 
 def rebinding_stream(ctx, rep):
@@ -1065,7 +1135,7 @@ def replay(ctx, obj):
     lean = common.lean_check("C17")
     inp = (obj.get("failing_input") or obj.get("first"))["input"]
     if inp.get("stream") == "user-volume":
-        known_stream(ctx, rep)
+        user_volume_stream(ctx, rep)
         return common.finish(ctx, rep, lean)
     if inp.get("stream") == "malformed":
         malformed_stream(ctx, rep)
